@@ -55,26 +55,43 @@ func pxToken(raw string) string {
 // ProxyXform runs the C15 cases
 func ProxyXform(w *world.World, raws []json.RawMessage) ([]interface{}, error) {
 	w.Configure([]world.DispCfg{{Name: "px", Size: 0, HfpTTL: 300}})
-	upstream.ResetWithOnStats([]config.UpstreamConfig{
-		{Name: "up", Servers: []config.UpstreamServerConfig{{Addr: w.UpAddr}}},
-		{Name: "upgz", AcceptEncoding: "gzip", Servers: []config.UpstreamServerConfig{{Addr: w.UpAddr}}},
-	}, nil)
+	// the upstreams named *r are first configured with Accept-Encoding br and then reloaded with their final setting
+	for _, first := range []bool{true, false} {
+		gzr, nr := "gzip", ""
+		if first {
+			gzr, nr = "br", "br"
+		}
+		upstream.ResetWithOnStats([]config.UpstreamConfig{
+			{Name: "up", Servers: []config.UpstreamServerConfig{{Addr: w.UpAddr}}},
+			{Name: "upgz", AcceptEncoding: "gzip", Servers: []config.UpstreamServerConfig{{Addr: w.UpAddr}}},
+			{Name: "upgzr", AcceptEncoding: gzr, Servers: []config.UpstreamServerConfig{{Addr: w.UpAddr}}},
+			{Name: "upnr", AcceptEncoding: nr, Servers: []config.UpstreamServerConfig{{Addr: w.UpAddr}}},
+		}, nil)
+	}
 	var lcs []config.LocationConfig
 	lname := func(c *pxCase) string {
 		return fmt.Sprintf("%s-%s-%s-%s-%s", c.Rewrite, c.AddReq, c.AddQuery, c.AddResp, c.UpAE)
 	}
-	for _, rw := range []string{"none", "strip"} {
+	for _, rw := range []string{"none", "strip", "chain"} {
 		for _, ar := range []string{"none", "xadded", "via"} {
 			for _, aq := range []string{"none", "kv"} {
 				for _, ap := range []string{"none", "xresp", "vary"} {
-					for _, ua := range []string{"none", "gzip"} {
+					for _, ua := range []string{"none", "gzip", "none_r", "gzip_r"} {
 						c := &pxCase{Rewrite: rw, AddReq: ar, AddQuery: aq, AddResp: ap, UpAE: ua}
 						lc := config.LocationConfig{Name: lname(c), Upstream: "up"}
-						if ua == "gzip" {
+						switch ua {
+						case "gzip":
 							lc.Upstream = "upgz"
+						case "gzip_r":
+							lc.Upstream = "upgzr"
+						case "none_r":
+							lc.Upstream = "upnr"
 						}
 						if rw == "strip" {
 							lc.Rewrites = []string{"/api/*:/$1"}
+						}
+						if rw == "chain" {
+							lc.Rewrites = []string{"/api/*:/v1/$1", "/v1/*:/$1"}
 						}
 						switch ar {
 						case "xadded":
